@@ -54,7 +54,7 @@ REQUIRED_PROBES = ['t==begin', 't==end-1', 't==end'] + \
      'honest_accept_single', 'honest_accept_chain', 'threshold_per_call',
      'second_hierarchy', 'foreign_witness_verified_under_own_root_first',
      'default_timestamp', 'crafted_witness', 'witness_with_code', 'witness_ending_in_return',
-     'crafted_marker', 'chain_len_long', 'lock_form_bytes', 'lock_form_resrc', 'lock_form_redec', 'explicit_limits'] + \
+     'crafted_marker', 'chain_len_long', 'clock_read_failed', 'lock_form_bytes', 'lock_form_resrc', 'lock_form_redec', 'explicit_limits'] + \
     ['lock_wrapped_' + x for x in sorted(set(WRAPS) - {'none'})]
 NAMES = ['K', 'Kp'] + ['D%d' % i for i in range(1, 7)] + ['F%d' % i for i in range(1, 7)]
 FIELD_RANGE = {'key': (0, 32), 'begin': (32, 36), 'end': (36, 40), 'can': (40, 41),
@@ -195,6 +195,9 @@ def gen_step(rng, cell, clocks, vname, at_us, thr, fault_free):
         step['witness'] = 'chain' if lock == 'single' else 'single'
     elif a == 'bad_flag':
         step['flag'] = rng.choice(['04', '08', '20'])
+    if not fault_free and rng.chance(1, 15):
+        # the clock system call itself fails, once, during the validation
+        step['faults'].append({'at_read': rng.below(2 * ln + 1), 'kind': 'fail'})
     if not fault_free:
         if cf == 'step_back_between':
             step['faults'].append({'at_read': rng.rng(1, 2 * ln), 'kind': 'step',
@@ -476,6 +479,12 @@ def execute(plan, run):
         finally:
             reads = CLOCK.end_call()
         obs = ACCEPT if r is True else REJECT if r is False else 'BAD:' + str(r)
+        clock_failed = bool(CLOCK.last_call.get('would'))
+        if clock_failed:
+            # judged with the value the failed read would have returned; the validation
+            # may fail as a whole, but must not accept what that window excludes
+            run.probe('clock_read_failed')
+            reads = CLOCK.last_call['all']
         if step.get('default_t'):
             # no timestamp supplied: the execution timestamp is the validator's clock
             run.probe('default_timestamp')
@@ -483,7 +492,7 @@ def execute(plan, run):
         t = step['t']
         mdl, why = model(step['lock'], items, root_pk, t, sf, int(step['allowed'], 16),
                          reads, step['thr'])
-        if step.get('suffix') and mdl == ACCEPT:
+        if (step.get('suffix') or clock_failed) and mdl == ACCEPT:
             mdl = EITHER        # soundness only (see oracle.SUFFIXES)
 
         def sig_fn(o, m, step=step, why=why, reads=reads, t=t):
@@ -497,7 +506,8 @@ def execute(plan, run):
                           'attack': atk, 'why': why, 'lock': step['lock'],
                           'witness': step['witness'], 'signer': step['signer']})
         # who-level oracle for honest attempts: completeness of the builders
-        honest = (not atk and not step.get('suffix') and step['witness'] == step['lock'] and
+        honest = (not atk and not step.get('suffix') and not clock_failed and
+                  step['witness'] == step['lock'] and
                   step['signer'] == dn(pre, ln) and
                   all(c['can'] for c in step['chain'][:-1]) and
                   all(c['begin'] <= t < c['end'] for c in step['chain']) and
